@@ -213,10 +213,50 @@ def check_partition(ctx):
                 v = t.values.get('blocks_of_code')
                 picks = [x for x in ast.walk(v) if isinstance(x, ast.Subscript) and isinstance(x.slice, ast.Constant)] if v is not None else []
                 st = '%s template: blocks_of_code = %s' % (name, canon(v)[:120] if v is not None else None)
-                if picks and all(x.slice.value == idx for x in picks) and 'for _v0 in codes' in canon(v) and ' if ' not in canon(v).split('for _v0 in codes')[1]:
+                why = 'the %s driver must splice element %d of every generated pair, unfiltered' % (name, idx)
+                filtered = v is not None and any(isinstance(x, (ast.ListComp, ast.GeneratorExp)) and any(g.ifs for g in x.generators) for x in ast.walk(v))
+                if picks and any(x.slice.value != idx for x in picks):
+                    ctx.violation(rule, t.func, st, why + ' (it takes element %s)' % sorted({x.slice.value for x in picks if x.slice.value != idx}), t.lineno, clause='c', witness=True)
+                elif filtered:
+                    ctx.violation(rule, t.func, st, why + ' (the blocks are filtered)', t.lineno, clause='c', witness=True)
+                elif picks and 'for _v0 in codes' in canon(v):
                     ctx.holds(rule, t.func, st, 'all blocks, in order, taking element %d of each pair' % idx, t.lineno, clause='c')
                 else:
-                    ctx.violation(rule, t.func, st, 'the %s driver must splice element %d of every generated pair, unfiltered' % (name, idx), t.lineno, clause='c')
+                    got = _collected_side(t.func.node, v) if v is not None else None
+                    if got == {idx}:
+                        ctx.holds(rule, t.func, st, 'a list that collects element %d of each generated pair, in order' % idx, t.lineno, clause='c')
+                    elif got:
+                        ctx.violation(rule, t.func, st, why + ' (the list collects element %s)' % sorted(got), t.lineno, clause='c', witness=True)
+                    else:
+                        ctx.undecided(rule, t.func, st, 'cannot see which element of the generated pairs is spliced', t.lineno, clause='c')
+
+
+def _collected_side(func, v):
+    """the blocks are a local list filled by ``xs.append(a)`` with a the k-th component of a
+    tuple loop target: {k, ...}; None when that is not how the list is made"""
+    names = {x.id for x in ast.walk(v) if isinstance(x, ast.Name) and isinstance(x.ctx, ast.Load)} - {'indent', 'self', 'level'}
+    out = set()
+    for nm in names:
+        adds = [c for c in ast.walk(func) if isinstance(c, ast.Call) and isinstance(c.func, ast.Attribute) and c.func.attr in ('append', 'extend', 'insert')
+                and isinstance(c.func.value, ast.Name) and c.func.value.id == nm]
+        stores = [a for a in ast.walk(func) if isinstance(a, ast.Assign) and any(isinstance(t_, ast.Name) and t_.id == nm for t_ in a.targets)]
+        if not adds:
+            continue
+        if any(not (isinstance(a.value, ast.List) and not a.value.elts) for a in stores):
+            return None
+        for c in adds:
+            if c.func.attr != 'append' or len(c.args) != 1 or not isinstance(c.args[0], ast.Name):
+                return None
+            k = None
+            for loop in ast.walk(func):
+                if isinstance(loop, ast.For) and isinstance(loop.target, ast.Tuple) and any(x is c for x in ast.walk(loop)):
+                    ids = [e.id if isinstance(e, ast.Name) else None for e in loop.target.elts]
+                    if c.args[0].id in ids and len(ids) == 2:
+                        k = ids.index(c.args[0].id)
+            if k is None:
+                return None
+            out.add(k)
+    return out or None
 
 
 def loop_vars_over_groups(func):
